@@ -9,9 +9,10 @@ From InToto.Proofs Require Import VerifySpec ThresholdSpec VerifyThreshold Verif
 Definition s (x : string) : str := List.map (fun a => N.of_nat (nat_of_ascii a)) (list_ascii_of_string x).
 Local Open Scope string_scope.
 
-(** oracles of the example: a signature value is valid for a key token iff it equals the token
-    (whatever the message); base64 / json.loads are not needed (traditional format only) *)
-Definition x_sig_ok (tok : str) (_ : list N) (v : str) : bool := eqs v tok.
+(** oracles of the example: a signature value is valid for a key token iff it begins with the token
+    (whatever the message; gpg values are signature|other_headers); base64 / json.loads are not needed
+    (traditional format only) *)
+Definition x_sig_ok (tok : str) (_ : list N) (v : str) : bool := starts_with tok v.
 Definition x_b64 (_ : str) : option (list N) := None.
 Definition x_loads (_ : list N) : option json := None.
 Definition x_exec (_ : list json) : exec_result := ExCrash.
@@ -251,3 +252,18 @@ Proof.
   split; [right; left; reflexivity|]. split; [vm_compute; reflexivity|]. split; [vm_compute; discriminate|].
   eexists. split; vm_compute; reflexivity.
 Qed.
+
+(* ------------------------------------------------------------------ *)
+(** * observation (candidate finding, reported): key expiry is checked on the SELECTED (sub)key only.
+      An expired master key whose signing subkey carries no expiry of its own: the subkey's link counts. *)
+Definition kMexp : json :=
+  JDict [(S_keyid, JStr (s "dd")); (S_type, JStr S_rsa); (S_method, JStr (s "pgp+rsa-pkcsv1.5"));
+         (S_hashes, JList [JStr (s "pgp+SHA2")]); (S_keyval, JDict [(S_public, JDict [])]);
+         (S_creation_time, JInt 1000); (S_validity_period, JInt 1000);
+         (S_subkeys, JDict [(s "d1", gpg_sub "d1" 1000 0)])].
+Definition LE := mk_layout [mk_step "s1" ["dd"] 1] [(s "dd", kMexp)].
+Definition fE_master := (s "s1.dd.link", link_file "s1" [] P1 [gpg_sig "dd" "dd"]).
+Definition fE_sub := (s "s1.d1.link", link_file "s1" [] P1 [gpg_sig "d1" "d1"]).
+Example ex_expired_master_live_subkey :
+  verdict (run [fE_master] LE) = Some EThreshold /\ verdict (run [fE_sub] LE) = None.
+Proof. vm_compute. split; reflexivity. Qed.
